@@ -178,7 +178,49 @@ def work_raw_no_eid(chunk):
     return res
 
 
+
+def gen_public_sessions(tier):
+    """Both public clients with a privacy user: discovery at session entry, incl. the first discovery datagram lost and the entry
+    repeated, one User object shared by sessions, an iterator prepared before entry."""
+    from . import c13
+
+    for case in c13.gen_public(tier):
+        cfg = Cfg.from_desc(case["cfg"])
+        if cfg.priv and ("order" in case or case.get("lose_first") or case.get("empty_eid_arg") or "pre_iter" in case["script"]):
+            yield case
+
+
+def _public_problems(case):
+    from . import c13
+
+    probs, n = (c13.run_shared if "order" in case else c13.run_public)(case, ("salt",))
+    keep = []
+    for c, t in probs:
+        if c == "salt" and PROPERTY == "C11" and not ("not an OCTET STRING" in t or "priv flag" in t):
+            continue  # salt values are C14's clause
+        if c in ("salt",):
+            keep.append((c, t))
+    return keep, n
+
+
+def work_public_sessions(chunk):
+    res = common.Result()
+    for case in chunk:
+        probs, n = _public_problems(case)
+        res.count("cases")
+        res.count("datagrams", n)
+        res.count("api_calls", len(case["script"]) + 1)
+        res.distinct()
+        res.outcome("public-" + case["driver"] + ("-lost-probe" if case.get("lose_first") else ""))
+        for c, t in probs:
+            res.violation("public/%s/%s: %s" % (case["driver"], c, histcheck.classify(t)), t, case)
+    return res
+
 def replay(case):
+    if "driver" in case and "script" in case:
+        common.prepare_stage()
+        probs, n = _public_problems(case)
+        return {"problems": probs, "requests": n, "holds": not probs}
     if case.get("raw_no_eid"):
         common.prepare_stage()
         r = work_raw_no_eid([case])
@@ -209,5 +251,6 @@ def run(tier):
     common.run_cases(rec, work, list(gen_cases(tier)), chunk=50)
     pub = [{"empty_priv": True, "auth": a, "priv": p, "discover": d, "kt": 0, "klen": 0} for a, p, d in itertools.product((1, 2), (1, 2), (False, True))]
     common.run_cases(rec, work_public, pub, chunk=2)
+    common.run_cases(rec, work_public_sessions, list(gen_public_sessions(tier)), chunk=6)
     common.run_cases(rec, work_raw_no_eid, [{"cfg": Cfg("v3", auth=a, priv=p, key_type=kt).describe()} for a in (1, 2) for p in (1, 2) for kt in (0, 1)], chunk=2)
     return histcheck.finish(rec)
